@@ -857,6 +857,10 @@ class Interp:
                 r = any(x.name == a.name for x in bitems)
                 r = r if isinstance(op, ast.In) else not r
                 return ("t",) if r else ("f",)
+            if isinstance(a, ClassV) and all(isinstance(x, ClassV) for x in bitems):
+                r = any(x.cls is a.cls for x in bitems)
+                r = r if isinstance(op, ast.In) else not r
+                return ("t",) if r else ("f",)
             if isinstance(a, SeqV) and a.const is not None and all(isinstance(x, SeqV) and x.const is not None
                                                                    for x in bitems):
                 r = any(x.const == a.const for x in bitems)
@@ -1242,6 +1246,10 @@ class Interp:
             return int(v.e.const)
         if isinstance(v, EnumV):
             return ("enum", v.name)
+        if isinstance(v, ClassV):
+            return ("cls", v.cls.qualname)
+        if isinstance(v, NoneV):
+            return None
         return ("?", id(v))
 
     def e_Lambda(self, e, st):
@@ -1617,6 +1625,37 @@ class Interp:
         if short in ("list", "tuple") and len(args) == 1 and isinstance(args[0], (ListV, TupleV)):
             its = st.items(args[0])
             return self.val(st, st.new_list(its) if short == "list" else TupleV(its))
+        if short == "enumerate" and len(args) >= 1 and isinstance(args[0], (ListV, TupleV)):
+            start = int(self.as_int(args[1]).const) if len(args) > 1 else 0
+            return self.val(st, TupleV([TupleV([IntV(i + start), x]) for i, x in enumerate(st.items(args[0]))], True))
+        if short == "zip" and args and all(isinstance(a, (ListV, TupleV)) for a in args):
+            return self.val(st, TupleV([TupleV(list(t)) for t in zip(*[st.items(a) for a in args])], True))
+        if short == "sorted" and len(args) == 1 and isinstance(args[0], (ListV, TupleV)):
+            items = st.items(args[0])
+            keyf = kwargs.get("key")
+            rev = kwargs.get("reverse")
+            keys = []
+            cur = st
+            for x in items:
+                if keyf is None:
+                    kv = x
+                else:
+                    outs = [o for o in self.call(keyf, [x], {}, cur, node)]
+                    if len(outs) != 1 or outs[0].kind != "val":
+                        self.unsupported(node, "sorted() with a key that forks or raises")
+                    kv, cur = outs[0].value, outs[0].st
+                if isinstance(kv, BoolV) and kv.f[0] in ("t", "f"):
+                    keys.append(kv.f[0] == "t")
+                elif isinstance(kv, IntV) and kv.e.is_const():
+                    keys.append(int(kv.e.const))
+                elif isinstance(kv, SeqV) and kv.const is not None:
+                    keys.append(kv.const)
+                else:
+                    self.unsupported(node, f"sorted() with a symbolic key {kv!r}")
+            order = sorted(range(len(items)), key=lambda i: keys[i],
+                           reverse=isinstance(rev, BoolV) and rev.f == ("t",))
+            cur.events.append(("sorted", self.where(node), order))
+            return self.val(cur, cur.new_list([items[i] for i in order]))
         if short == "reversed" and len(args) == 1 and isinstance(args[0], (ListV, TupleV)):
             return self.val(st, TupleV(list(reversed(st.items(args[0]))), True))
         if short in ("list", "tuple") and not args:
@@ -1827,6 +1866,10 @@ class Interp:
     def _key_value(self, k) -> V:
         if isinstance(k, tuple) and k and k[0] == "enum" and self.repr_code_cls is not None:
             return EnumV(self.repr_code_cls, k[1])
+        if isinstance(k, tuple) and k and k[0] == "cls" and k[1] in self.ix.classes:
+            return ClassV(self.ix.classes[k[1]])
+        if k is None:
+            return NONE
         if isinstance(k, tuple):
             return OpaqueV("key")
         return self.from_python(k)
